@@ -149,12 +149,12 @@ Proof.
 Qed.
 
 (* ------------------------------------------------------------------------------------------ *)
-(* CREATE / DROP builders: exact outside the "unarmed guard" situations                        *)
+(* CREATE / DROP builders: exact inside the contract                                           *)
 (* ------------------------------------------------------------------------------------------ *)
-Theorem guards_c_exact : forall s c k, wf_c s c = true -> frag_c s c = true ->
+Theorem guards_c_exact : forall s c k, wf_c s c = true ->
   (step_c s c = Err k <-> first_fired guards_c (s, c) = Some k).
 Proof.
-  intros [v t tmp a n pk fk] c k Hwf Hfr.
+  intros [v t tmp a n pk fk] c k Hwf.
   destruct c; unf; cbn in *.
   - destruct t; fin.
   - fin.
@@ -166,10 +166,10 @@ Proof.
   - subst v. destruct tmp; fin.
 Qed.
 
-Theorem guards_d_exact : forall s c k, wf_d s c = true -> frag_d s c = true ->
+Theorem guards_d_exact : forall s c k, wf_d s c = true ->
   (step_d s c = Err k <-> first_fired guards_d (s, c) = Some k).
 Proof.
-  intros [ck tg cl] c k Hwf Hfr. unfold step_d, wf_d in *.
+  intros [ck tg cl] c k Hwf. unfold step_d, wf_d in *.
   destruct c as [kd ne|ne]; unf; cbn in *.
   - destruct kd, ck; cbn in *; try discriminate; destruct tg as [[|]|]; fin.
   - subst ck. cbn. destruct cl as [[|]|]; fin.
